@@ -19,9 +19,11 @@ import (
 	"io"
 	"os"
 	"path/filepath"
+	"runtime/debug"
 	"sort"
 	"strings"
 	"sync"
+	"sync/atomic"
 	"testing"
 	"time"
 
@@ -34,8 +36,8 @@ import (
 	"github.com/libp2p/go-libp2p/internal/vfh"
 	basichost "github.com/libp2p/go-libp2p/p2p/host/basic"
 	"github.com/libp2p/go-libp2p/p2p/muxer/yamux"
-	"github.com/libp2p/go-libp2p/p2p/protocol/identify"
 	mocknet "github.com/libp2p/go-libp2p/p2p/net/mock"
+	"github.com/libp2p/go-libp2p/p2p/protocol/identify"
 	"github.com/libp2p/go-libp2p/p2p/security/noise"
 	libp2ptls "github.com/libp2p/go-libp2p/p2p/security/tls"
 	libp2pquic "github.com/libp2p/go-libp2p/p2p/transport/quic"
@@ -102,7 +104,23 @@ func (r *vfC02LazyRun) run(watchdog time.Duration) (stalled bool) {
 		defer close(done)
 		defer func() {
 			if p := recover(); p != nil {
-				r.mismatch(len(r.log), "lazyms-panic", fmt.Sprintf("panic in the channel code: %v", p), "no panic", fmt.Sprint(p))
+				// calls into the code under test run on this goroutine too; the stack tells them apart
+				st := string(debug.Stack())
+				if i := strings.Index(st, "panic("); i >= 0 {
+					st = st[i:]
+				}
+				first := ""
+				for _, ln := range strings.Split(st, "\n") {
+					if strings.HasPrefix(ln, "\t") && !strings.Contains(ln, "/runtime/") {
+						first = ln
+						break
+					}
+				}
+				if strings.Contains(first, "zz_verif_") || strings.Contains(first, "internal/vf") {
+					r.mismatch(len(r.log), "MACHINERY", fmt.Sprintf("panic in the harness: %v at %s", p, first), nil, nil)
+				} else {
+					r.mismatch(len(r.log), "lazyms-panic", fmt.Sprintf("panic in the channel code: %v at %s", p, strings.TrimSpace(first)), "no panic", fmt.Sprint(p))
+				}
 			}
 		}()
 		r.body(addCloser)
@@ -462,6 +480,8 @@ func TestVerifC02LazyMS(t *testing.T) {
 	}
 }
 
+var vfC02Stalled atomic.Bool
+
 // vfC02LazyReplay runs the walks (one in `share`) on streams from h1 to h2.
 func vfC02LazyReplay(res *vfh.Result, files []string, h1, h2 host.Host, label string, share int) error {
 	rounds := vfh.EnvInt("VERIF_C02_ROUNDS", 1)
@@ -489,10 +509,13 @@ func vfC02LazyReplay(res *vfh.Result, files []string, h1, h2 host.Host, label st
 					return &vfC02LazyRun{res: res, file: j.f, w: j.w, h1: h1, h2: h2, proto: proto, accept: accept, label: label,
 						pick: vfc02.Picker{Seed: uint64(vfh.Seed()), Round: j.rd}}
 				}
-				if mk().run(30 * time.Second) {
+				if vfC02Stalled.Load() {
+					continue // a reproduced stall has been reported: the rest would only wait for watchdogs
+				}
+				if mk().run(20 * time.Second) {
 					res.Inc("lazyms_stalls", 1)
 					r2 := mk()
-					if r2.run(60 * time.Second) {
+					if r2.run(40*time.Second) && !vfC02Stalled.Swap(true) {
 						r2.mismatch(len(j.w.Steps), "lazyms-stall", "bytes handed to Write did not reach the reader (the walk stalled twice)", "delivery", "stall")
 					}
 				}
